@@ -73,6 +73,11 @@ package textwire
 
 //@ func (t *Template) String
 //@   requires TplInv(t)
+//@   call getFullPath#0: assert resolves-the-template-name: arg0 == filename && arg1
+//@   call getFullPath#0: bind resolved
+//@   call New#0: assert unresolvable-name-is-reported-under-the-name: arg1 == filename
+//@   call New#1: assert not-found-names-the-resolved-file: arg1 == resolved0
+//@   call NewContext#0: assert errors-of-the-render-carry-the-resolved-file: arg0 == resolved0
 //@   goal unknown-name-is-not-found: !has(t.programs, filename) ==> result1 != nil
 //@   ensures result1 != nil ==> result0 == ""
 //@   modifies nothing
